@@ -115,13 +115,23 @@ class MemBackend(TrialBackend):
         self.marker[trial_id] = "stop"
         self._kill(trial_id)
 
+    def dst_truth(self, name, rec):
+        """Ground truth added to back-end call records (checkpoint store)."""
+        if name == "resume_trial":
+            return {"ck_exists": rec.get("trial") in self.ckpt, "ck_level": self.ckpt.get(rec.get("trial"))}
+        if name == "start_trial" and rec.get("ckpt") is not None:
+            return {"src_exists": rec["ckpt"] in self.ckpt}
+        return {}
+
     def copy_checkpoint(self, src_trial_id, tgt_trial_id):
+        self.sim.log("ck.copy", src=src_trial_id, tgt=tgt_trial_id, src_exists=src_trial_id in self.ckpt)
         if src_trial_id not in self.ckpt:
             # mirrors shutil.copytree of a missing directory
             raise FileNotFoundError(f"checkpoint of trial {src_trial_id} does not exist")
         self.ckpt[tgt_trial_id] = self.ckpt[src_trial_id]
 
     def delete_checkpoint(self, trial_id):
+        self.sim.log("ck.delete", trial=trial_id, existed=trial_id in self.ckpt)
         self.ckpt.pop(trial_id, None)
 
     def busy_trial_ids(self):
